@@ -39,6 +39,9 @@ own_pio (bool), seed``):
                                          contribution was visible)
 * ``rt/update_image/critical_sections_exclusive`` + ``detail`` (two processes were between "read returned" and
                                          "about to write" at the same instant of the system-wide monotonic clock)
+* ``rt/update_image/one_tile_file``    + ``detail, n_updates_elsewhere`` (a sibling of the tile in another format / another lock file
+                                         exists, or an updater that opened the existing pyramid without naming a format did
+                                         not get the pyramid's format: the contributions are spread over several files)
 * ``rt/update_image/updater_runs``     + ``detail`` (an updater raised / exit code != 0)
 * ``rt/update_image/terminates``       + ``timeout_s`` (watchdog; generous: >= 10x the expected time)
 
@@ -58,6 +61,13 @@ filelock's stale-marker self-healing) is left alone.  Installed from the harness
 processes only; the harness itself uses the saved real functions.  The property requires the waiters to wait:
 same oracle as above (every contribution present, serial order exists, critical sections disjoint).
 
+Auto-detected format (witness keys ``open`` = 'auto', ``layout``; 8 scenarios quick, 16 thorough): the pyramid exists
+before the updaters start (one other tile in ``pio_format`` = npy / fits, written with the plain codec) and every updater
+opens it with ``PyramidIO(dir)`` -- no ``default_format``, as toasty's command-line tools do -- anew before each update,
+i.e. while other updaters are inside their critical sections; ``layout`` (see ``prepare_layout``) adds the lock file of
+another tile and / or a stray non-image file and fixes the creation order.  Same oracle (every contribution in the
+pyramid's tile file, serial order) plus ``one_tile_file``.
+
 Trusted: ``filelock.SoftFileLock`` (external), the OS's atomic O_EXCL create, numpy/astropy/PIL
 codecs; float32 holds integers < 2^24 exactly.
 """
@@ -76,7 +86,8 @@ BLK = 8          # pixels per shared block
 PRIV0 = 256      # flat index where private pixels start (row 1); row 0 holds counter + shared blocks
 CAP = 5
 KEYS = ("n_updaters", "rounds", "pio_format", "mode", "scheme", "pos", "regions", "delay_ms", "own_pio", "seed")
-KEYS_OPT = {"hold_ms": 0, "clock_factor": 1}      # slow-holder scenarios (absent in older witnesses)
+KEYS_OPT = {"hold_ms": 0, "clock_factor": 1,       # slow-holder scenarios (absent in older witnesses)
+            "open": "explicit", "layout": None}    # auto-detected format on an existing pyramid (absent in older witnesses)
 ALLKEYS = KEYS + tuple(KEYS_OPT)
 
 # the harness' own clock / sleep: never the accelerated ones installed in waiter processes
@@ -190,7 +201,8 @@ def _updater(k, cfg, pio, barrier, logdir, inside_evt=None, fast_sleeps=None):
     n_up = cfg["n_updaters"]
     rng = random.Random(cfg["seed"] * 1000 + k)
     imode = ImageMode.F32 if mode == "F32" else ImageMode.RGBA
-    if cfg["own_pio"]:
+    auto = cfg.get("open") == "auto"
+    if cfg["own_pio"] and not auto:
         pio = PyramidIO(cfg["workdir"], scheme=cfg["scheme"], default_format=cfg["pio_format"])
     pos = Pos(*cfg["pos"])
     log = []
@@ -211,14 +223,21 @@ def _updater(k, cfg, pio, barrier, logdir, inside_evt=None, fast_sleeps=None):
                 _real_sleep(rng.random() * cfg["delay_ms"] / 1000.0)
             null_first = rng.random() < 0.25
             for what in (("null", "real") if null_first else ("real",)):
-                phase = "acquire+read"
+                phase = "open"
                 try:
+                    if auto:
+                        # this updater opens the EXISTING pyramid the way the command-line tools do -- no default_format:
+                        # the format is the pyramid's own -- and it does so now, while other updaters may be inside
+                        pio = PyramidIO(cfg["workdir"], scheme=cfg["scheme"])
+                    phase = "acquire+read"
                     with pio.update_image(pos, masked_mode=imode, default="masked") as basis:
                         phase = "inside"
                         t_in = _real_monotonic()
                         arr = np.array(basis.asarray())
                         snap = summarize(mode, arr, n_up, rounds)
                         snap.update({"k": k, "r": r, "what": what, "t_in": t_in})
+                        if auto:
+                            snap["opened_as"] = pio.get_default_format()
                         if hold_s and k == 0 and r == 0 and what == "real":
                             inside_evt.set()
                             _real_sleep(hold_s)          # the slow holder: a long time between read and write
@@ -280,6 +299,8 @@ def stress(cfg):
         return res
     PyramidIO.read_image = slow_read      # harness-side widening of the read -> write window
 
+    if cfg.get("layout"):
+        prepare_layout(base, cfg)
     pio = PyramidIO(base, scheme=cfg["scheme"], default_format=cfg["pio_format"])
     ctxm = mp.get_context("fork")
     barrier = ctxm.Barrier(cfg["n_updaters"])
@@ -317,8 +338,72 @@ def stress(cfg):
         if root.startswith(logdir):
             continue
         tile_files.extend(os.path.relpath(os.path.join(root, f), base) for f in files)
+    # every file that belongs to the updated tile (same directory, same stem): the tile file itself, lock files, and any
+    # sibling in another format
+    stem = os.path.basename(tile_path(base, cfg["scheme"], cfg["pos"], "x"))[:-1]
+    siblings = sorted(f for f in tile_files if os.path.dirname(os.path.join(base, f)) == os.path.dirname(path)
+                      and os.path.basename(f).startswith(stem))
     return {"exitcodes": exitcodes, "statuses": statuses, "logs": logs, "final": final, "final_err": final_err,
-            "secs": secs, "read_calls": calls.value, "files": sorted(tile_files), "fast_clock_sleeps": fast_sleeps.value}
+            "secs": secs, "read_calls": calls.value, "files": sorted(tile_files), "fast_clock_sleeps": fast_sleeps.value,
+            "tile_siblings": siblings, "tile_file": os.path.relpath(path, base)}
+
+
+def raw_tile(mode):
+    """A fully defined 256x256 tile of the mode (content of the tiles that exist before the updaters start)."""
+    if mode == "F32":
+        return np.full((256, 256), 7.0, np.float32)
+    a = np.full((256, 256, 4), 255, np.uint8)
+    a[..., 0] = 7
+    return a
+
+
+def write_raw(path, ext, arr):
+    os.makedirs(os.path.dirname(path), exist_ok=True)
+    if ext == "npy":
+        np.save(path, arr)
+    elif ext == "fits":
+        from astropy.io import fits
+        fits.writeto(path, arr, overwrite=True)
+    else:
+        from PIL import Image as PILImage
+        PILImage.fromarray(arr).save(path, format="PNG")
+
+
+def prepare_layout(base, cfg):
+    """Build the pyramid that exists before the updaters start (harness side, plain codecs; nothing of toasty):
+      existing   [n,x,y]  a tile of the pyramid, in the pyramid's format (this is what makes it an existing <format> pyramid)
+      other_lock [n,x,y]  the lock file of ANOTHER tile: an updater of that tile is inside its critical section for the whole
+                          run (or a crashed run left the file behind); null = none
+      stray      [n,x,y,ext] a non-image file that sits among the tiles (e.g. '3_1.txt'); null = none
+      dir_order  'target_first' | 'existing_first'  order in which the directories of the updated tile and of the existing
+                          tile are created;  lock_first (bool): the lock / stray files are created before the existing tile
+    Several layouts are run because directory iteration order is file-system specific (hash of the name, or creation
+    order): in some of them a scan of the directory tree meets a lock file before it meets a tile."""
+    lay, ext, scheme = cfg["layout"], cfg["pio_format"], cfg["scheme"]
+    tgt = tile_path(base, scheme, cfg["pos"], ext)
+    ex = tile_path(base, scheme, lay["existing"], ext)
+    dirs = [os.path.dirname(tgt), os.path.dirname(ex)]
+    if lay.get("dir_order") == "existing_first":
+        dirs.reverse()
+    for d in dirs:
+        os.makedirs(d, exist_ok=True)
+
+    def others():
+        if lay.get("other_lock"):
+            pth = tile_path(base, scheme, lay["other_lock"], ext) + ".lock"
+            os.makedirs(os.path.dirname(pth), exist_ok=True)
+            open(pth, "w").close()
+        if lay.get("stray"):
+            pth = tile_path(base, scheme, lay["stray"][:3], lay["stray"][3])
+            os.makedirs(os.path.dirname(pth), exist_ok=True)
+            with open(pth, "w") as f:
+                f.write("not a tile\n")
+
+    if lay.get("lock_first"):
+        others()
+    write_raw(ex, ext, raw_tile(cfg["mode"]))
+    if not lay.get("lock_first"):
+        others()
 
 
 # ---- oracle -----------------------------------------------------------------------------------
@@ -341,6 +426,19 @@ def analyse(cfg, res):
         out.append(("rt/update_image/updater_runs", {"detail": str(other_errs[0])[:600]},
                     "%d update(s) raised: %s" % (len(other_errs), other_errs[0]["error"])))
     snaps = [l for l in res["logs"] if "error" not in l]
+    # every contribution goes to ONE file, the tile of the pyramid's own format: no sibling of the tile in another format,
+    # and every updater that opened the existing pyramid without naming a format got the pyramid's format
+    foreign = [f for f in res.get("tile_siblings", []) if f != res.get("tile_file") and not f.endswith(".lock")]
+    foreign_locks = [f for f in res.get("tile_siblings", []) if f.endswith(".lock") and f != res.get("tile_file", "") + ".lock"]
+    opened = sorted(set(s["opened_as"] for s in snaps if "opened_as" in s))
+    wrong_open = [s for s in snaps if s.get("opened_as", cfg["pio_format"]) != cfg["pio_format"]]
+    if foreign or foreign_locks or wrong_open:
+        d = "files of the updated tile: %s (the pyramid's tile is %s); formats under which updaters opened the %s pyramid: %s" % (
+            res.get("tile_siblings"), res.get("tile_file"), cfg["pio_format"], opened)
+        if wrong_open:
+            d += "; e.g. updater %d round %d" % (wrong_open[0]["k"], wrong_open[0]["r"])
+        out.append(("rt/update_image/one_tile_file", {"detail": d[:700], "n_updates_elsewhere": len(wrong_open)},
+                    "updates of one tile went to different files / locks: " + d))
     torn = [s for s in snaps if s["partial"] or not s["prefix_ok"] or -2 in s["blocks"]]
     if torn:
         out.append(("rt/update_image/reader_sees_complete_tile", {"detail": str(torn[0])[:600]},
@@ -417,9 +515,46 @@ def analyse(cfg, res):
 
 # ---- scenarios ----------------------------------------------------------------------------------
 
-def scenario(n, rounds, pio_format, mode, scheme, pos, regions, delay_ms, own_pio, seed, hold_ms=0, clock_factor=1):
+def scenario(n, rounds, pio_format, mode, scheme, pos, regions, delay_ms, own_pio, seed, hold_ms=0, clock_factor=1, open="explicit", layout=None):
     return {"n_updaters": n, "rounds": rounds, "pio_format": pio_format, "mode": mode, "scheme": scheme, "pos": list(pos),
-            "regions": regions, "delay_ms": delay_ms, "own_pio": own_pio, "seed": seed, "hold_ms": hold_ms, "clock_factor": clock_factor}
+            "regions": regions, "delay_ms": delay_ms, "own_pio": own_pio, "seed": seed, "hold_ms": hold_ms, "clock_factor": clock_factor,
+            "open": open, "layout": layout}
+
+
+def auto_format_scenarios(ctx, s):
+    """Updaters that open an EXISTING npy / fits pyramid without naming its format (``PyramidIO(dir)``, as the command-line
+    tools do), anew before every update, while other updaters hold the tile's lock and while the lock file of another tile
+    and / or a stray non-image file sit in the pyramid.  'Every contribution is in the final tile' is about the pyramid's
+    tile file, whatever else lies in the directory.  Both placements of (existing tile, other lock) over two row
+    directories x both creation orders, the same across two levels, and the flat LXY scheme."""
+    def lay(existing, other_lock, dir_order, lock_first, stray=None):
+        return {"existing": list(existing), "other_lock": list(other_lock) if other_lock else None, "stray": stray,
+                "dir_order": dir_order, "lock_first": lock_first}
+    out = []
+    i = 0
+    # rows 1/0 and 1/1: the updated tile (1,0,1) is in row 1; the existing tile in row 0 or in row 1
+    for existing, other in (((1, 0, 0), (1, 1, 1)), ((1, 1, 1), (1, 1, 0))):
+        for order in ("target_first", "existing_first"):
+            fmt, mode = (("npy", "F32"), ("npy", "RGBA"), ("fits", "F32"), ("npy", "RGBA"))[i % 4]
+            out.append(scenario(3, 6, fmt, mode, "L/Y/YX", (1, 0, 1), "overlap", 3, True, s + 200 + i, open="auto",
+                                layout=lay(existing, other, order, i % 2 == 1)))
+            i += 1
+    # two levels: existing tile at level 2 / updated tile at level 1 and the other way round; lock of a tile of a third level
+    out.append(scenario(3, 6, "npy", "RGBA", "L/Y/YX", (1, 1, 0), "disjoint", 3, True, s + 210, open="auto",
+                        layout=lay((2, 3, 3), (0, 0, 0), "existing_first", True)))
+    out.append(scenario(3, 6, "npy", "F32", "L/Y/YX", (2, 1, 2), "overlap", 3, True, s + 211, open="auto",
+                        layout=lay((1, 0, 0), (3, 4, 4), "target_first", False, stray=[2, 3, 2, "txt"])))
+    # flat scheme: one directory holds everything
+    out.append(scenario(3, 6, "npy", "RGBA", "LXY", (1, 0, 1), "overlap", 3, True, s + 212, open="auto",
+                        layout=lay((1, 1, 1), (0, 0, 0), "target_first", True)))
+    out.append(scenario(3, 6, "fits", "F32", "LXY", (2, 2, 2), "overlap", 3, True, s + 213, open="auto",
+                        layout=lay((2, 0, 1), (2, 3, 3), "target_first", False, stray=[1, 0, 0, "txt"])))
+    if ctx.thorough:
+        for j, (existing, other) in enumerate((((1, 0, 0), (1, 1, 1)), ((1, 1, 1), (1, 1, 0)), ((1, 1, 1), None), ((3, 0, 7), (3, 7, 0)))):
+            for order in ("target_first", "existing_first"):
+                out.append(scenario(8, 25, ("npy", "fits")[j % 2], "F32", "L/Y/YX", (1, 0, 1), "overlap", 2, True, s + 220 + 2 * j + (order == "existing_first"),
+                                    open="auto", layout=lay(existing, other, order, bool(j % 2))))
+    return out
 
 
 def slow_holder_scenarios(ctx, s):
@@ -444,7 +579,7 @@ def build(ctx):
             scenario(4, 25, "png", "RGBA", "L/Y/YX", (0, 0, 0), "overlap", 5, True, s + 5),
             scenario(2, 50, "png", "RGBA", "LXY", (4, 9, 15), "disjoint", 3, False, s + 6),
             scenario(8, 12, "npy", "RGBA", "L/Y/YX", (5, 31, 0), "overlap", 0, True, s + 7),
-        ] + slow_holder_scenarios(ctx, s)
+        ] + slow_holder_scenarios(ctx, s) + auto_format_scenarios(ctx, s)
     out = []
     i = 0
     for n in (2, 4, 8, 16):
@@ -455,7 +590,7 @@ def build(ctx):
             i += 1
     out.append(scenario(8, 200, "npy", "RGBA", "L/Y/YX", (5, 31, 0), "overlap", 0, True, s + 50))
     out.append(scenario(16, 100, "npy", "F32", "L/Y/YX", (2, 0, 3), "overlap", 0, False, s + 51))
-    return out + slow_holder_scenarios(ctx, s)
+    return out + slow_holder_scenarios(ctx, s) + auto_format_scenarios(ctx, s)
 
 
 def _timeout(cfg):
@@ -491,6 +626,12 @@ def run(ctx):
               "processes (>= 2 minutes of lock waiting on their clock)"
               % (len([c for c in scs if c["hold_ms"]]), sorted(set(c["hold_ms"] for c in scs if c["hold_ms"])),
                  sorted(set(c["clock_factor"] for c in scs if c["hold_ms"]))))
+    autos = [c for c in scs if c.get("open") == "auto"]
+    ctx.bound("auto-detected format: %d of the scenarios; every updater opens the existing %s pyramid with PyramidIO(dir) (no "
+              "default_format) anew before each update, while the others hold / release the tile's lock; the pyramid holds one other "
+              "tile plus the lock file of another tile and / or a stray .txt file; layouts: both placements over two row directories x "
+              "both directory creation orders, two levels, flat LXY scheme (directory iteration order is file-system specific)"
+              % (len(autos), sorted(set(c["pio_format"] for c in autos))))
     ctx.assume("CLOCK_MONOTONIC is one clock for all processes of the machine (critical-section intervals are compared across processes)")
     ctx.assume("filelock.SoftFileLock gives mutual exclusion on a local file system (O_EXCL create)")
     ctx.assume("numpy/astropy/PIL codecs; float32 exact for integers < 2^24")
@@ -508,7 +649,7 @@ def run(ctx):
     fast_sleeps = 0
     waited_ok = 0
     slow_samples = []
-    with ThreadPoolExecutor(max_workers=8 if not ctx.thorough else 4) as ex:
+    with ThreadPoolExecutor(max_workers=12 if not ctx.thorough else 4) as ex:
         results = dict(ex.map(work, list(enumerate(scs))))
     for i, cfg in enumerate(scs):
         status, res, secs, t = results[i]
